@@ -8,9 +8,21 @@ from ..ieeeob import IeeeJob, HarnessJob, param_leaves, cleaves, isnan_fn, run_j
 from .quant_common import Quant, TENSORS, BASES
 
 
+def same_exact(a, b):
+    try:
+        return Fraction(a) == Fraction(b)
+    except (TypeError, ValueError, OverflowError):
+        return same(a, b)
+
+
 def cast_py(kind, x):
-    x = float(x)
-    return rnd(kind, x)
+    """(kind) x, correctly rounded once from the exact source value (never through a Python float: that would round twice)."""
+    from ..cemit import round_to
+    try:
+        fx = Fraction(x)
+    except (TypeError, ValueError, OverflowError):
+        return rnd(kind, float(x))          # inf / nan
+    return float(round_to(fx, kind)) if kind != 'long double' else round_to(fx, kind)
 
 
 def run(check):
@@ -67,12 +79,13 @@ def run(check):
                         return []
                     bad = []
                     for i, (x, y) in enumerate(zip(src_v, got)):
-                        if not same(cast_py(T, x), y):
+                        if not same_exact(cast_py(T, x), y):
                             bad.append('component %d: source %s, cast gives %s, stored %s' % (i, float(x), cast_py(T, x), float(y)))
                     return bad
                 j = IeeeJob(check, 'C16.cast.%s.%s.%s' % (cls, 'ctor' if what == 'ctor' else 'assign', tag), low, f, ensures=ens,
                             assigns='__CPROVER_assigns(*self)', backend=(['sat'] if 'long double' in (T, O) else ['cvc5', 'sat']), timeout=120, predicate=pred)
                 j.gen = gen_vals
+                j.search_tries = 16
                 jobs.append(j)
                 check.under_contract(f)
     # widening then narrowing is the identity (per-slot casts compose)
@@ -86,8 +99,20 @@ def run(check):
     run_jobs(check, jobs)
 
 
+TRICKY = [Fraction(1) + Fraction(1, 2 ** 24) + Fraction(1, 2 ** 60),      # just above a float midpoint, by less than half a double ulp
+          -(Fraction(1) + Fraction(1, 2 ** 24) + Fraction(1, 2 ** 60)),
+          Fraction(3) + Fraction(1, 2 ** 22) + Fraction(1, 2 ** 58),
+          Fraction(1) + Fraction(1, 2 ** 53) + Fraction(1, 2 ** 63),      # just above a double midpoint (long double source)
+          Fraction(1, 3), Fraction(2, 3)]
+
+
 def gen_vals(rndm, lt):
+    """Search inputs for the native refutation: ordinary values, and values next to rounding midpoints of the narrower types
+    (a component routed through an intermediate type is rounded twice there)."""
     if lt[0] == 'f':
+        if rndm.random() < 0.5:
+            from ..cemit import round_to
+            return round_to(rndm.choice(TRICKY), lt[1])
         return Fraction(rndm.choice(['0.1', '1e10', '-3.3', '1.0000000001', '123456789.123', '-1e-30', '7']))
     return 0
 
